@@ -359,6 +359,8 @@ def bytes_deref(ctx):
 
 @contract(r'^(?:bytes::)?BytesMut::with_capacity$')
 def bytesmut_with_capacity(ctx):
+    # Vec::with_capacity underneath: a capacity above isize::MAX panics ("capacity overflow"); running out of memory is not modelled
+    ctx.ex.require(ctx.st, z3.ULE(ctx.args[0].t, BV((1 << 63) - 1, 64)), 'panic', 'BytesMut::with_capacity: capacity overflow')
     b = Bytes.from_terms([], 'bytesmut')
     return with_cap(b, ctx.args[0].t)
 
@@ -366,6 +368,7 @@ def bytesmut_with_capacity(ctx):
 @contract(r'^(?:bytes::)?BytesMut::zeroed$')
 def bytesmut_zeroed(ctx):
     n = ctx.args[0].t
+    ctx.ex.require(ctx.st, z3.ULE(n, BV((1 << 63) - 1, 64)), 'panic', 'BytesMut::zeroed: capacity overflow')
     b = Bytes(lambda i: BV(0, 8), n, 'bytesmut')
     return with_cap(b, n)
 
